@@ -1,6 +1,8 @@
 """C08 - After disturbances the cluster returns to OPERATION; nobody stays parked (necessary conditions, per call).
 Clause 1 (no self-decision refused by the table) is carried by the next() contracts of contracts/c02.py."""
 from pyvc.spec import *
+
+GROUP = 'fsm'   # contracts of one group use each other's contracts at call sites (pyvc/hooks.py contract_for_call)
 from contracts.c02 import (valid, valid_state, coupled, SYNC_OPTIONS, LOCAL, ISM, LID, master, cur, PROT, VIEW_PROT)
 
 OPT = SynchronizationOptions
